@@ -7,6 +7,21 @@ From Coq Require Import Lia ZArith List Bool.
 Import ListNotations.
 Open Scope Z_scope.
 
+(** * Reflection of the boolean forms *)
+Lemma differ_b_sound a b : differ_b a b = true -> differ a b.
+Proof. unfold differ_b, differ. intros H. apply negb_true_iff in H. exact H. Qed.
+Lemma last_cycle_differs_sound cfg ss : last_cycle_differs_b cfg ss = true -> last_cycle_differs cfg ss.
+Proof.
+  unfold last_cycle_differs_b, last_cycle_differs.
+  destruct (last_obs _) as [o|]; [|discriminate]. destruct (so_after o) as [s2|] eqn:E; [|discriminate].
+  intros H. exists o, s2. split; [reflexivity|]. split; [exact E|]. apply differ_b_sound, H.
+Qed.
+Lemma all_synced_sound d : all_synced_b d = true -> all_synced d.
+Proof.
+  unfold all_synced_b, all_synced. intros H. apply Forall_forall. intros x Hx.
+  rewrite forallb_forall in H. apply Z.eqb_eq, H, Hx.
+Qed.
+
 Definition sA : str := [65].
 Definition sB : str := [66].
 Definition sC : str := [67].
@@ -21,39 +36,58 @@ Definition w05_3 : list session := [([OCreateNode [sA]; OSessNode [sB] []], EClo
 Definition w05_3tx : list session := [([OCreateNode [sA]; OSessTxNode [sB]], EClose)].
 Definition w05_4 : list session := [([OCreateNode [sA]], EClose); ([ORotate; OCreateNode [sB]], EClose)].
 
+Ltac witness05 :=
+  split; [reflexivity|]; split; [vm_compute; reflexivity|]; apply last_cycle_differs_sound; vm_compute; reflexivity.
+
 Lemma w05_1_l : no_crash w05_1 = true /\ real_flags (engine_cfg MSync) w05_1 = [mkK true false false false]
                 /\ last_cycle_differs (engine_cfg MSync) w05_1.
-Proof. split; [reflexivity|]. split; [vm_compute; reflexivity|]. eexists. eexists. vm_compute. repeat split. Qed.
+Proof. witness05. Qed.
 Lemma w05_2_l : no_crash w05_2 = true /\ real_flags (engine_cfg MSync) w05_2 = [mkK false true false false]
                 /\ last_cycle_differs (engine_cfg MSync) w05_2.
-Proof. split; [reflexivity|]. split; [vm_compute; reflexivity|]. eexists. eexists. vm_compute. repeat split. Qed.
+Proof. witness05. Qed.
 Lemma w05_3_l : no_crash w05_3 = true /\ real_flags (engine_cfg MSync) w05_3 = [mkK false false true false]
                 /\ last_cycle_differs (engine_cfg MSync) w05_3.
-Proof. split; [reflexivity|]. split; [vm_compute; reflexivity|]. eexists. eexists. vm_compute. repeat split. Qed.
+Proof. witness05. Qed.
 Lemma w05_3tx_l : no_crash w05_3tx = true /\ real_flags (engine_cfg MSync) w05_3tx = [mkK false false true false]
                 /\ last_cycle_differs (engine_cfg MSync) w05_3tx.
-Proof. split; [reflexivity|]. split; [vm_compute; reflexivity|]. eexists. eexists. vm_compute. repeat split. Qed.
+Proof. witness05. Qed.
 Lemma w05_4_l : no_crash w05_4 = true /\ real_flags (engine_cfg MSync) w05_4 = [k0; mkK false false false true]
                 /\ last_cycle_differs (engine_cfg MSync) w05_4.
-Proof. split; [reflexivity|]. split; [vm_compute; reflexivity|]. eexists. eexists. vm_compute. repeat split. Qed.
+Proof. witness05. Qed.
 
 (** * C06 *)
 (** K1: everything was fsynced, nothing is cut, and the node is gone all the same *)
 Definition w06_1 : list op := [OCreateNode [sA]; OSetNodeProp 0 sK vOne; OSync].
+Definition w06_1_disk : disk := wdrop (db_w (fst (real_ops (engine_cfg MSync) db_fresh w06_1))).
+Definition reopened_differs_b (d : disk) (s1 : store) : bool :=
+  match real_open d with ROk st2 => differ_b (db_store st2) s1 | RErr => false end.
+Lemma reopened_differs_sound d s1 :
+  reopened_differs_b d s1 = true -> exists st2, real_open d = ROk st2 /\ differ (db_store st2) s1.
+Proof. unfold reopened_differs_b. destruct (real_open d) as [st2|]; [|discriminate]. intros H. exists st2. split; [reflexivity|apply differ_b_sound, H]. Qed.
 Lemma w06_1_l :
-  let st1 := fst (real_ops (engine_cfg MSync) db_fresh w06_1) in
-  let d := wdrop (db_w st1) in
-  all_synced d /\ k06_1 crc32 dec_record_slice d = true
-  /\ exists st2, real_open d = ROk st2 /\ differ (db_store st2) (db_store st1).
+  all_synced w06_1_disk /\ k06_1 crc32 dec_record_slice w06_1_disk = true
+  /\ exists st2, real_open w06_1_disk = ROk st2
+                 /\ differ (db_store st2) (db_store (fst (real_ops (engine_cfg MSync) db_fresh w06_1))).
 Proof.
-  cbv zeta. split; [vm_compute; repeat constructor|]. split; [vm_compute; reflexivity|].
-  eexists. vm_compute. split; reflexivity.
+  split; [apply all_synced_sound; vm_compute; reflexivity|]. split; [vm_compute; reflexivity|].
+  apply reopened_differs_sound. vm_compute. reflexivity.
 Qed.
 
 (** K2: a crash tears the last record; the database is reopened, written to and closed
     cleanly; the write is unreadable for ever *)
 Definition w06_2 : list session :=
   [([OCreateNode [sA]], EClose); ([OCreateNode [sB]; OCreateNode [sC]], ECrash [(0, 50)]); ([OCreateNode [sC]], EClose)].
+(** the crash image the second session leaves *)
+Definition image_flags (cfg : wcfg) (ss : list session) (k : nat) : option (bool * bool) :=
+  match nth_error (fst (real_sessions cfg ss)) k with
+  | Some o => Some (k06_2 crc32 dec_record_slice (so_disk o), k06_5 crc32 dec_record_slice (so_disk o))
+  | None => None
+  end.
+Lemma image_flags_sound cfg ss k a b :
+  image_flags cfg ss k = Some (a, b) ->
+  exists o, nth_error (fst (real_sessions cfg ss)) k = Some o
+            /\ k06_2 crc32 dec_record_slice (so_disk o) = a /\ k06_5 crc32 dec_record_slice (so_disk o) = b.
+Proof. unfold image_flags. destruct (nth_error _ k) as [o|]; [|discriminate]. intros H. injection H as <- <-. eauto. Qed.
 Lemma w06_2_l :
   ends_with_close w06_2
   /\ (exists o, nth_error (fst (real_sessions (engine_cfg MNoSync) w06_2)) 1 = Some o
@@ -61,8 +95,8 @@ Lemma w06_2_l :
   /\ last_cycle_differs (engine_cfg MNoSync) w06_2.
 Proof.
   split; [exact I|]. split.
-  - eexists. vm_compute. repeat split.
-  - eexists. eexists. vm_compute. repeat split.
+  - apply image_flags_sound. vm_compute. reflexivity.
+  - apply last_cycle_differs_sound. vm_compute. reflexivity.
 Qed.
 
 (** K5: the crash loses nothing, recovery drops the two uncommitted records but leaves them in
@@ -76,8 +110,8 @@ Lemma w06_5_l :
   /\ last_cycle_differs (engine_cfg MNoSync) w06_5.
 Proof.
   split; [exact I|]. split.
-  - eexists. vm_compute. repeat split.
-  - eexists. eexists. vm_compute. repeat split.
+  - apply image_flags_sound. vm_compute. reflexivity.
+  - apply last_cycle_differs_sound. vm_compute. reflexivity.
 Qed.
 
 (** K3: two log files; the first loses the tail of its last record, the second is intact *)
@@ -86,6 +120,7 @@ Definition w06_3_ops : list wop :=
   [WLog (CreateNode 0 [sA]); WLog (CreateNode 1 [sB]); WRotate; WLog (CreateNode 2 [sC]); WLog (TxCommit 2)].
 Definition w06_3_disk : disk := wdrop (wrun crc32 enc_record (engine_cfg MNoSync) (wopen empty_disk) w06_3_ops).
 Definition w06_3_img : disk := cut_disk [(0, 23)] w06_3_disk.
+Definition w06_3_got : list record := [CreateNode 0 [sA]; CreateNode 2 [sC]; TxCommit 2].
 
 Lemma sm_firstn_cases (L : list record) (P : list record -> Prop) :
   (forall k, (k <= length L)%nat -> P (snd (sm_run ([], []) (firstn k L)))) ->
@@ -95,18 +130,25 @@ Proof.
   rewrite firstn_all2 by lia. rewrite <- (firstn_all L). apply H. lia.
 Qed.
 
-Lemma w06_3_l :
+Lemma w06_3_files :
   d_files w06_3_disk = [(0, mkFile (real_frames [CreateNode 0 [sA]; CreateNode 1 [sB]]) 26 0);
-                        (1, mkFile (real_frames [CreateNode 2 [sC]; TxCommit 2]) 24 0)]
-  /\ crash w06_3_disk w06_3_img
+                        (1, mkFile (real_frames [CreateNode 2 [sC]; TxCommit 2]) 23 0)]
+  /\ d_files w06_3_img = [(0, mkFile (firstn 23 (real_frames [CreateNode 0 [sA]; CreateNode 1 [sB]])) 23 0);
+                          (1, mkFile (real_frames [CreateNode 2 [sC]; TxCommit 2]) 23 0)]
+  /\ d_meta w06_3_img = d_meta w06_3_disk.
+Proof. split; [vm_compute; reflexivity|]. split; vm_compute; reflexivity. Qed.
+
+Lemma w06_3_l :
+  crash w06_3_disk w06_3_img
   /\ k06_3 crc32 dec_record_slice w06_3_disk w06_3_img = true
-  /\ real_recover w06_3_img = ROk [CreateNode 0 [sA]; CreateNode 2 [sC]; TxCommit 2]
-  /\ forall k, snd (sm_run ([], []) (firstn k w06_3_log)) <> [CreateNode 0 [sA]; CreateNode 2 [sC]; TxCommit 2].
+  /\ real_recover w06_3_img = ROk w06_3_got
+  /\ forall k, snd (sm_run ([], []) (firstn k w06_3_log)) <> w06_3_got.
 Proof.
-  split; [vm_compute; reflexivity|]. split.
-  - split; [|reflexivity]. vm_compute.
-    apply cf_keep; [exists 23%nat; split; [lia|reflexivity]|].
-    apply cf_keep; [exists 24%nat; split; [lia|reflexivity]|]. constructor.
+  destruct w06_3_files as (F1 & F2 & F3).
+  split.
+  - split; [|exact F3]. rewrite F1, F2.
+    apply cf_keep; [exists 23%nat; split; [cbn; lia|reflexivity]|].
+    apply cf_keep; [exists 23%nat; split; [cbn; lia|vm_compute; reflexivity]|]. constructor.
   - split; [vm_compute; reflexivity|]. split; [vm_compute; reflexivity|].
     apply (sm_firstn_cases w06_3_log (fun c => c <> _)). intros k Hk.
     do 5 (destruct k as [|k]; [vm_compute; discriminate|]). cbn in Hk. lia.
@@ -116,20 +158,28 @@ Qed.
 (** K1: a node created by a session after the first commit is stamped with an epoch the store's
     own counter never reaches; export, save and to_memory do not see it *)
 Definition w07_1 : list op := [OCreateNode [sA]; OSessTxNode [sB]; OSessNode [sC] []].
+Definition imported_differs_b (s : store) : bool :=
+  match import dec_snapshot (export enc_snapshot s) with IOk c => differ_b c s | _ => false end.
+Lemma imported_differs_sound s :
+  imported_differs_b s = true -> exists c, import dec_snapshot (export enc_snapshot s) = IOk c /\ differ c s.
+Proof. unfold imported_differs_b. destruct (import _ _) as [c| |]; try discriminate. intros H. exists c. split; [reflexivity|apply differ_b_sound, H]. Qed.
 Lemma w07_1_l :
-  let s := fst (run_store w07_1) in
-  k07_1 s = true /\ differ (to_memory s) s
-  /\ exists c, import dec_snapshot (export enc_snapshot s) = IOk c /\ differ c s.
-Proof. cbv zeta. split; [vm_compute; reflexivity|]. split; [vm_compute; reflexivity|]. eexists. vm_compute. split; reflexivity. Qed.
+  k07_1 (fst (run_store w07_1)) = true /\ differ (to_memory (fst (run_store w07_1))) (fst (run_store w07_1))
+  /\ exists c, import dec_snapshot (export enc_snapshot (fst (run_store w07_1))) = IOk c /\ differ c (fst (run_store w07_1)).
+Proof.
+  split; [vm_compute; reflexivity|]. split; [apply differ_b_sound; vm_compute; reflexivity|].
+  apply imported_differs_sound. vm_compute. reflexivity.
+Qed.
 
 (** K2: a valid (empty) snapshot followed by a byte that belongs to nothing *)
 Definition w07_2 : bytes := [1; 0; 0; 255].
 Lemma w07_2_l :
-  (exists sn n, dec_snapshot w07_2 = Some (sn, n) /\ (n < length w07_2)%nat /\ k07_2 w07_2 n = true)
-  /\ exists c, import dec_snapshot w07_2 = IOk c.
-Proof. split; [do 2 eexists; vm_compute; repeat split; lia|]. eexists. vm_compute. reflexivity. Qed.
+  dec_snapshot w07_2 = Some (mkSnap 1 [] [], 3%nat) /\ k07_2 w07_2 3 = true
+  /\ import dec_snapshot w07_2 = IOk empty_store.
+Proof. split; [vm_compute; reflexivity|]. split; vm_compute; reflexivity. Qed.
 
 (** K3: a snapshot whose single node carries the identifier u64::MAX *)
-Definition w07_3 : bytes := enc_snapshot (mkSnap 1 [(2 ^ 64 - 1, [sA], [])] []).
-Lemma w07_3_l : import dec_snapshot w07_3 = IPanic /\ exists sn n, dec_snapshot w07_3 = Some (sn, n) /\ k07_3 sn = true.
-Proof. split; [vm_compute; reflexivity|]. do 2 eexists. vm_compute. split; reflexivity. Qed.
+Definition w07_3_snap : snapshot := mkSnap 1 [(2 ^ 64 - 1, [sA], [])] [].
+Definition w07_3 : bytes := enc_snapshot w07_3_snap.
+Lemma w07_3_l : import dec_snapshot w07_3 = IPanic /\ dec_snapshot w07_3 = Some (w07_3_snap, length w07_3) /\ k07_3 w07_3_snap = true.
+Proof. split; [vm_compute; reflexivity|]. split; vm_compute; reflexivity. Qed.
